@@ -371,8 +371,11 @@ COMPACT_TYPES = """<config name="c"><types>
 
 
 class Variant:
-    def __init__(self, name, sch, expect_reject=False, big=False):
+    def __init__(self, name, sch, expect_reject=False, big=False, may_reject=False):
         self.name, self.sch, self.expect_reject, self.big = name, sch, expect_reject, big
+        # may_reject: the generator is free to refuse this schema (a session-pipeline or framing field is missing);
+        # if it accepts it, everything the property says about accepted schemas applies
+        self.may_reject = may_reject
 
 
 def next_num(sch):
@@ -413,6 +416,13 @@ def mutations(base, label, sites="all"):
                 for c2 in dict(containers(s))[cname]:
                     c2.remove(members(c2)[i])
                 out.append(Variant("%s/remove %s" % (label, tag), s))
+            elif len(ms) > 1 or cname == "trailer":
+                # a field the session pipeline or the framing needs: refusing the schema is fine, accepting it
+                # and emitting a package that does not compile is not
+                s = b.clone()
+                for c2 in dict(containers(s))[cname]:
+                    c2.remove(members(c2)[i])
+                out.append(Variant("%s/remove-pipeline %s" % (label, tag), s, may_reject=True))
             if i + 1 < len(ms):
                 s = b.clone()
                 for c2 in dict(containers(s))[cname]:
@@ -685,10 +695,37 @@ def run_variant(c, idx, v):
             return sh([c.fixgen, "-o", outdir, "-t", os.path.join(wd, "types.xml"), "-s", os.path.join(wd, "schema.xml")], cwd=cwd, timeout=300)
 
         rc, out = gen("./p", mod)
+
+        def verdict_varies(first_ok, runs=None):
+            """the same schema, the same generator, the same command line: does the accept/refuse verdict change
+            from run to run?  (a map whose iteration order decides a validation)  Looked for hard — a verdict that
+            varies has to be found again by every replay — but only for the first few anomalies of a process."""
+            if runs is None:
+                c.heavy = getattr(c, "heavy", 0) + 1
+                if c.heavy > 3 and not c.replaying:
+                    return 0
+                runs = 150 if not v.big else 12
+            for r in range(runs):
+                rcx, _ = gen("./pz", mod)
+                shutil.rmtree(os.path.join(mod, "pz"), ignore_errors=True)
+                if (rcx == 0) != first_ok:
+                    return r + 2
+            return 0
+
+        # an unexpected refusal is re-run a few times; a replay looks for a changing verdict much harder, so that a
+        # verdict that varies is reproduced every time and not just when the dice fall the same way
+        if c.replaying or (rc != 0 and not v.expect_reject and not v.may_reject):
+            k = verdict_varies(rc == 0)
+            if k:
+                viol.append(("nondeterministic:acceptance", "run 1 of %s %s the schema, run %d %s it" % (
+                    v.name, "accepted" if rc == 0 else "refused", k, "refused" if rc == 0 else "accepted")))
+                return viol, "nondeterministic"
         if v.expect_reject:
             if rc == 0:
                 viol.append(("accepted-invalid-schema:" + v.name.split("/")[-1].split(" ")[0], "generator exited 0 on " + v.name))
             return viol, "rejected" if rc != 0 else "accepted"
+        if rc != 0 and v.may_reject:
+            return viol, "rejected (allowed)"
         if rc != 0:
             viol.append(("rejected-valid-schema:" + opclass(v.name), "generator failed on %s:\n%s" % (v.name, out[-1500:])))
             return viol, "gen-failed"
@@ -708,6 +745,9 @@ def run_variant(c, idx, v):
                     viol.append(("nondeterministic:content", "run %d of the same schema wrote a different package (%s)" % (r + 2, v.name)))
                     return viol, "nondeterministic"  # every later comparison has the first run as its reference
         rc2, out2 = gen("./p2", mod)
+        if rc2 != 0 and verdict_varies(True):
+            viol.append(("nondeterministic:acceptance", "run 1 of %s accepted the schema, a later run refused it: %s" % (v.name, out2[-300:])))
+            return viol, "nondeterministic"
         a, b = tree_bytes(os.path.join(mod, "p")), tree_bytes(os.path.join(mod, "p2"))
         if rc2 != 0 or set(a) != set(b):
             viol.append(("nondeterministic:file-set", "second run: rc=%d files %s vs %s" % (rc2, sorted(set(a) ^ set(b))[:10], "")))
@@ -725,6 +765,9 @@ def run_variant(c, idx, v):
             for form, od, cwd in (("nested", "a/b/p", mod), ("absolute", os.path.join(mod, "abs", "p"), wd), ("nested-dot", "./x/../y/p", mod)):
                 rc3, out3 = gen(od, cwd)
                 tgt = od if os.path.isabs(od) else os.path.join(cwd, od)
+                if rc3 != 0 and verdict_varies(True):
+                    viol.append(("nondeterministic:acceptance", "run 1 of %s accepted the schema, a later run refused it: %s" % (v.name, out3[-300:])))
+                    return viol, "nondeterministic"
                 if rc3 != 0:
                     viol.append(("outdir:%s-rejected" % form, "fixgen -o %s: %s" % (od, out3[-400:])))
                     continue
@@ -738,6 +781,9 @@ def run_variant(c, idx, v):
             for f, content in a.items():
                 open(os.path.join(used, f), "wb").write(content + b"\n// tail of an earlier generation\nvar _ = 1 +\n" * 3)
             rc4, out4 = gen("q/p", mod)
+            if rc4 != 0 and verdict_varies(True):
+                viol.append(("nondeterministic:acceptance", "run 1 of %s accepted the schema, a later run refused it: %s" % (v.name, out4[-300:])))
+                return viol, "nondeterministic"
             if rc4 != 0:
                 viol.append(("outdir:used-directory-rejected", out4[-400:]))
             elif tree_bytes(used) != a:
@@ -755,6 +801,9 @@ def run_variant(c, idx, v):
             rc5, out5 = sh([c.twice, os.path.join(wd, "schema.xml"), os.path.join(wd, "types.xml"), os.path.join(mod, "t1", "p"), os.path.join(mod, "t2", "p")], cwd=mod, timeout=300)
             if rc5 == 3:
                 viol.append(("HARNESS:twice", out5[-400:]))
+            elif rc5 != 0 and verdict_varies(True):
+                viol.append(("nondeterministic:acceptance", "run 1 of %s accepted the schema, a later run refused it: %s" % (v.name, out5[-300:])))
+                return viol, "nondeterministic"
             elif rc5 != 0:
                 viol.append(("generator-object-not-reusable", out5[-400:]))
             elif tree_bytes(os.path.join(mod, "t2", "p")) != a:
@@ -839,6 +888,7 @@ def main():
                bounds={}, counters={}, notes=[])
     try:
         c = prepare(repo, scratch)
+        c.replaying = bool(args.replay) and json.load(open(args.replay)).get("sig") == "nondeterministic:acceptance"
         vs = family(repo, args.tier or "quick")
         res["bounds"]["schemas_in_family"] = len(vs)
         if args.replay:
